@@ -77,7 +77,7 @@ impl Check for C03 {
         let max_len = ctx.tier.pick(4usize, 5usize);
         let corp = corpus();
         ctx.rule = format!(
-            "(1) all strings of length 0..{} over the {}-character alphabet {:?} (every character class of the scanner, every first character of a multi-character symbol, one multi-byte character), each run bare and after `print(\"S\")` on the first line; (2) deviation bound k = 1 over a corpus of {} programs: truncation at every byte offset, deletion and duplication of every character, insertion before and replacement of every character by each of {} characters, deletion / duplication / swap of adjacent tokens, parsed with the real front end (hook ast) and, where the reference says the text is rejected or terminates, run; (2c) 14 characters outside the usual classes (NUL, controls, non-ASCII spaces and line separators, byte-order mark, combining and 4-byte characters) inserted at every offset of the short corpus programs; (2d) an unexpected token of every kind with 0..90 characters of ASCII / multi-byte content in 6 contexts; (3) 1- and 2-byte invalid UTF-8 sequences inserted at every offset of short scripts through the CLI; non-trivial = every input that is not a program of the reference grammar",
+            "(1) all strings of length 0..{} over the {}-character alphabet {:?} (every character class of the scanner, every first character of a multi-character symbol, one multi-byte character), each run bare and after `print(\"S\")` on the first line; (2) deviation bound k = 1 over a corpus of {} programs: truncation at every byte offset, deletion and duplication of every character, insertion before and replacement of every character by each of {} characters, deletion / duplication / swap of adjacent tokens, parsed with the real front end (hook ast) and, where the reference says the text is rejected or terminates, run; (2c) 20 characters outside the usual classes (NUL, controls, non-ASCII spaces and line separators, byte-order mark, combining and 4-byte characters, non-ASCII digits, numerals and letters) inserted at every offset of the short corpus programs; (2d) an unexpected token of every kind with 0..90 characters of ASCII / multi-byte content in 6 contexts; (2e) every string of length 0..3 over 13 characters as the text of an interpolation slot, and literal-only arithmetic over 10 edge literals, run to completion or a located diagnostic; (3) 1- and 2-byte invalid UTF-8 sequences inserted at every offset of short scripts through the CLI; non-trivial = every input that is not a program of the reference grammar",
             max_len,
             SIGMA.len(),
             SIGMA.join(""),
@@ -183,7 +183,7 @@ impl Check for C03 {
         // (2c) characters outside the usual classes (NUL and other controls, non-ASCII spaces and
         // line separators, a byte-order mark, a 4-byte character) inserted at every offset of the
         // short corpus programs
-        let exotic: [&str; 14] = ["\0", "\u{1}", "\u{7f}", "\t", "\r", "\u{b}", "\u{c}", "\u{85}", "\u{a0}", "\u{2028}", "\u{feff}", "\u{200b}", "\u{1f600}", "\u{300}"];
+        let exotic: [&str; 20] = ["\0", "\u{1}", "\u{7f}", "\t", "\r", "\u{b}", "\u{c}", "\u{85}", "\u{a0}", "\u{2028}", "\u{feff}", "\u{200b}", "\u{1f600}", "\u{300}", "\u{ff11}", "\u{b2}", "\u{bd}", "\u{663}", "\u{2167}", "\u{aa}"];
         let exo_max = ctx.tier.pick(60usize, 110usize);
         let mut n_exo = 0u64;
         for (_name, src0) in &corp {
@@ -223,6 +223,43 @@ impl Check for C03 {
                     let mut c = Case::new(format!("print(\"S\")\n{}", ctxt.replace('@', &t)), T_PREFIXED, String::new());
                     c.no_ref = true;
                     batch.push(c);
+                }
+            }
+        }
+        // (2e) the same front end lexes and parses the text of an interpolation slot when the literal
+        // is evaluated: every string of length 0..3 over a small alphabet as slot text, run
+        {
+            let sa: [&str; 13] = ["x", "1", "\\\"", "$", "\\\\", "(", ")", ".", "+", "-", " ", "\n", "é"];
+            let mut texts: Vec<String> = vec![String::new()];
+            let mut level: Vec<String> = vec![String::new()];
+            for _ in 0..3 {
+                let mut next = vec![];
+                for t in &level {
+                    for a in sa {
+                        next.push(format!("{}{}", t, a));
+                    }
+                }
+                texts.extend(next.iter().cloned());
+                level = next;
+            }
+            for t in texts {
+                // braces are left out of the alphabet: they would end or extend the slot
+                for (pre, post) in [("a", "b"), ("é€", "😀"), ("\\xe9", "\\n")] {
+                    let mut c = Case::new(format!("print(\"S\")\nx := \"v\"\ny := $\"{}${{{}}}{}\"\nprint(\"E\")\n", pre, t, post), 12, format!("slot text {:?} between {:?} and {:?}", t, pre, post));
+                    // whether a line break may follow the expression inside a slot is left open
+                    c.no_ref = t.contains('\n');
+                    batch.push(c);
+                }
+            }
+            // literal-only arithmetic (what a parser might fold), at the edges of the range
+            let lits = ["0", "1", "-1", "2", "-2", "9223372036854775807", "-9223372036854775807", "(-9223372036854775807 - 1)", "4611686018427387904", "3037000500"];
+            for a in lits {
+                for b in lits {
+                    for op in ["+", "-", "*", "/", "%"] {
+                        let mut c = Case::new(format!("print(\"S\")\nprint({} {} {})\nprint({} {} {} {} {})\n", a, op, b, a, op, b, op, a), 12, format!("literal arithmetic {} {} {}", a, op, b));
+                        c.no_ref = false;
+                        batch.push(c);
+                    }
                 }
             }
         }
@@ -372,6 +409,26 @@ impl Check for C03 {
                     return viol("accept-reject", format!("{:?}: real front end {} the text, the reference front end {} it ({:?})", c.src, if accepted { "accepts" } else { "rejects" }, if ref_ok { "accepts" } else { "rejects" }, parse_prog(&c.src).err()));
                 }
                 Verdict::Pass
+            }
+            12 => {
+                // the file itself is a program: its first statement runs, and whatever the slot text or
+                // the arithmetic is, the run ends by completion or by one reported diagnostic
+                if !o.out_str().starts_with("S\n") {
+                    return viol("accept-reject", format!("{}: the file is a program, but its first statement did not run: {:?} {:?}", c.meta, o.class, o.msg));
+                }
+                if !c.no_ref && !matches!(_r.result, crate::refm::eval::RefResult::Front(_)) && (_r.is_ok() != (o.class == Class::Ok) || _r.stdout != o.stdout) {
+                    return viol("slot-or-literal-evaluation", format!("{}: the run ended {:?} printing {:?}; the reference {} after printing {:?}", c.meta, o.class, o.out_str(), if _r.is_ok() { "completes" } else { "reports an error" }, String::from_utf8_lossy(&_r.stdout)));
+                }
+                match o.class {
+                    Class::Ok => Verdict::Pass,
+                    Class::Err => {
+                        if parse_pos(o.msg.lines().next().unwrap_or("")).is_none() {
+                            return viol("format", format!("{}: the diagnostic is not located: {:?}", c.meta, o.msg));
+                        }
+                        Verdict::Pass
+                    }
+                    _ => viol("crash", format!("{}: {:?}", c.meta, o.class)),
+                }
             }
             7 => {
                 // the scanner alone: it must get through the input (tokens or one lexical error)
